@@ -509,6 +509,20 @@ func (fr *frame) setEdge(b, s *ssa.BasicBlock, c *Term, st *State) {
 func (fr *frame) loopEnv(b *ssa.BasicBlock, st *State, phiVals map[*ssa.Phi]*Val) *Env {
 	env := fr.contractEnv(st.heap)
 	base := env.lookup
+	// a source variable that shadows / reassigns a parameter refers to its
+	// current value inside the loop; the entry value is old(name)
+	for _, p := range fr.fn.Params {
+		if v, ok := fr.resolveLocal(p.Name(), b); ok {
+			if pv, isP := fr.vals[p]; !isP || pv != v {
+				delete(env.vars, p.Name())
+			}
+		}
+		for _, ins := range b.Instrs {
+			if phi, ok := ins.(*ssa.Phi); ok && phi.Comment == p.Name() {
+				delete(env.vars, p.Name())
+			}
+		}
+	}
 	env.lookup = func(name string) (TV, bool) {
 		for _, ins := range b.Instrs {
 			phi, ok := ins.(*ssa.Phi)
@@ -634,6 +648,58 @@ func (fr *frame) autoInvs(b *ssa.BasicBlock, phiVals map[*ssa.Phi]*Val) []*Term 
 			break
 		}
 		if phi.Comment != "rangeindex" {
+			// counting loops: i = i + c (c > 0) keeps i >= init; i = i - c keeps i <= init
+			pv := phiVals[phi]
+			if pv == nil || pv.T == nil || pv.T.Sort != SInt || len(phi.Edges) != len(b.Preds) {
+				continue
+			}
+			var init ssa.Value
+			dir := 0
+			okPat := true
+			for k, p := range b.Preds {
+				e := phi.Edges[k]
+				if !backEdge(p, b) {
+					if init != nil && init != e {
+						okPat = false
+					}
+					init = e
+					continue
+				}
+				bo, isB := e.(*ssa.BinOp)
+				if !isB || bo.X != phi || (bo.Op != token.ADD && bo.Op != token.SUB) {
+					okPat = false
+					continue
+				}
+				c, isC := bo.Y.(*ssa.Const)
+				if !isC || c.Value == nil {
+					okPat = false
+					continue
+				}
+				cv := c.Int64()
+				d := 1
+				if (bo.Op == token.ADD && cv < 0) || (bo.Op == token.SUB && cv > 0) {
+					d = -1
+				}
+				if cv == 0 || (dir != 0 && dir != d) {
+					okPat = false
+				}
+				dir = d
+			}
+			if okPat && init != nil && dir != 0 {
+				var iv *Val
+				if v, ok := fr.vals[init]; ok {
+					iv = v
+				} else if _, isC := init.(*ssa.Const); isC {
+					iv = fr.get(init)
+				}
+				if iv != nil && iv.T != nil {
+					if dir > 0 {
+						out = append(out, Ge(pv.T, iv.T))
+					} else {
+						out = append(out, Le(pv.T, iv.T))
+					}
+				}
+			}
 			continue
 		}
 		// pattern: t3 = phi + 1 ; t4 = t3 < tN ; if t4
